@@ -15,9 +15,12 @@ const (
 	Version_V2
 )
 
+// VersionNumberV2 is the wire version of QUIC version 2 (RFC 9369).
+const VersionNumberV2 = 0x6b3343cf
+
 func ParseVersion(version uint32) (Version, error) {
 	switch version {
-	case 0x6b3343cf:
+	case VersionNumberV2:
 		return Version_V2, nil
 	case 1, 0x51303530:
 		return Version_V1, nil
@@ -82,11 +85,8 @@ func (v Version) IvLabel() []byte {
 	}
 }
 
+// InitialSecretLabel is the label of the client initial secret. QUIC v2 changes
+// the salt and the key/iv/hp/ku labels (RFC 9369 section 3.3) but not this one.
 func (v Version) InitialSecretLabel() []byte {
-	switch v {
-	case Version_V2:
-		return []byte("quicv2 client in")
-	default:
-		return []byte("client in")
-	}
+	return []byte("client in")
 }
